@@ -2,7 +2,10 @@
 
 package engine
 
-import "github.com/KevoDB/kevo/pkg/zzverif/vsym"
+import (
+	"github.com/KevoDB/kevo/pkg/wal"
+	"github.com/KevoDB/kevo/pkg/zzverif/vsym"
+)
 
 // VerifC01_ReadLatest: programs of puts, deletes, flushes and clean reopenings over a 2-key (thorough: 3-key)
 // universe, with the default or a 1-byte memtable; afterwards a get of a symbolic probe key returns exactly the
@@ -74,5 +77,50 @@ func VerifC01_ReadFromTables() {
 		h.hStep(1<<hPutFlush|1<<hDelFlush|1<<hRetire, 0)
 	}
 	h.hProbe()
+	vsym.Reach("done")
+}
+
+// VerifC01_LargeValues: values around the sizes at which the log fragments an entry (spill-over of exactly one full
+// record, +-1) and a 64 KiB value (more than one SSTable block's worth), mixed with small puts, flush and reopen:
+// every key reads back exactly the bytes of its latest put.
+func VerifC01_LargeValues() {
+	h := &hEnv{}
+	N := 2
+	if vsym.Thorough() {
+		N = 3
+	}
+	h.hKeys(2)
+	h.hOpen(true, false)
+	n := vsym.IntRange("n", 1, N)
+	for i := 0; i < n; i++ {
+		switch vsym.IntRange("op", 0, 3) {
+		case 0:
+			ki := vsym.IntRange("ki", 0, 1)
+			var v []byte
+			if vsym.IntRange("size", 0, 1) == 0 {
+				v = hSparse("big", wal.MaxRecordSize-4+vsym.IntRange("d", -1, 1))
+			} else {
+				v = hSparse("big", 64*1024)
+			}
+			vsym.Assert(h.e.Put(h.K[ki], v) == nil, "Put of a large value failed")
+			h.present[ki], h.val[ki] = true, v
+		case 1:
+			ki := vsym.IntRange("ki", 0, 1)
+			v := vsym.Bytes("v", 1)
+			vsym.Assert(h.e.Put(h.K[ki], v) == nil, "Put failed")
+			h.present[ki], h.val[ki] = true, v
+		case 2:
+			vsym.Assert(h.e.FlushImMemTables() == nil, "Flush failed")
+		case 3:
+			vsym.Assert(h.e.Close() == nil, "Close failed")
+			h.hOpen(false, false)
+		}
+	}
+	qi := vsym.IntRange("qi", 0, 1)
+	got, err := h.e.Get(h.K[qi])
+	vsym.Assert((err == nil) == h.present[qi], "a key with a large value is missing (or an unwritten key found)")
+	if err == nil && h.present[qi] {
+		vsym.Assert(len(got) == len(h.val[qi]) && vsym.EqBytes(got, h.val[qi]), "a large value does not read back as it was written")
+	}
 	vsym.Reach("done")
 }
